@@ -137,6 +137,21 @@ func InitExportingProcess(input ExporterInput) (*ExportingProcess, error) {
 				ExtendedMasterSecret: dtls.RequireExtendedMasterSecret,
 				ServerName:           tlsConfig.ServerName,
 			}
+			if net.ParseIP(tlsConfig.ServerName) != nil {
+				// The DTLS library does not use an IP address as server name and would
+				// verify the server certificate against no name at all: check that the
+				// certificate is valid for the address ourselves.
+				config.VerifyPeerCertificate = func(rawCerts [][]byte, _ [][]*x509.Certificate) error {
+					if len(rawCerts) == 0 {
+						return fmt.Errorf("no server certificate to verify against %s", tlsConfig.ServerName)
+					}
+					cert, err := x509.ParseCertificate(rawCerts[0])
+					if err != nil {
+						return err
+					}
+					return cert.VerifyHostname(tlsConfig.ServerName)
+				}
+			}
 			udpAddr, err := net.ResolveUDPAddr(input.CollectorProtocol, input.CollectorAddress)
 			if err != nil {
 				return nil, err
